@@ -45,6 +45,10 @@ def cohort(n_ind=7, dim=2, seed=0, missing=0.0, events=False, binary=False, min_
                 row["EVENT_BOOL"] = ev_b
             rows.append(row)
     df = pd.DataFrame(rows)
+    if events and n_ind >= 2 and df["EVENT_BOOL"].nunique() == 1:
+        # the joint model requires at least one observed and one censored event: flip the last individual's flag
+        last = df["ID"].iloc[-1]
+        df.loc[df["ID"] == last, "EVENT_BOOL"] = not bool(df["EVENT_BOOL"].iloc[0])
     if missing > 0 and dim >= 1:
         mask = rng.rand(len(df), dim) < missing
         # never blank a whole individual
